@@ -21,6 +21,7 @@ import (
 	"compress/gzip"
 	"encoding/base64"
 	"encoding/json"
+	"errors"
 	"io"
 
 	rspb "helm.sh/helm/v4/pkg/release/v1"
@@ -82,6 +83,12 @@ func decodeRelease(data string) (*rspb.Release, error) {
 	// unmarshal release object bytes
 	if err := json.Unmarshal(b, &rls); err != nil {
 		return nil, err
+	}
+	// Every record written by Helm carries the info section (the status label is derived from
+	// it). A record without it is as unusable as one that cannot be decoded: report it as such
+	// instead of handing out a release whose Info is nil.
+	if rls.Info == nil {
+		return nil, errors.New("release record has no info section")
 	}
 	return &rls, nil
 }
